@@ -207,6 +207,15 @@ class Executor3(Executor2):
         return n1 + n2, exits
 
     def merge_sv(self, c, a, b):
+        if a.kind == "listiter" or b.kind == "listiter":
+            if a is b:
+                return a
+            if a.kind == b.kind:
+                # two iterator states: position and list merged pointwise
+                ela, na, _ = a.x
+                elb, nb, _ = b.x
+                return SV("listiter", z3.If(c, a.t, b.t), cls=a.cls, x=(ela if ela.eq(elb) else z3.If(c, ela, elb), na if na.eq(nb) else z3.If(c, na, nb), None))
+            return None
         if a.kind == "reflist" or b.kind == "reflist":
             if a is b or (a.kind == b.kind and a.x[0] == "heap" and b.x[0] == "heap" and a.x[1].t.eq(b.x[1].t) and a.x[3] == b.x[3]):
                 return a
@@ -222,6 +231,51 @@ class Executor3(Executor2):
             self.need_listinv(st, container, ln, "in")
             return self.member(st, container, item.t)
         return Executor2.contains(self, st, container, item, ln)
+
+    # ---- iterators over reference lists: iter(L) is (a snapshot of L, a position); next(it) rebinds the NAME holding it
+    def bi_iter(self, e, st):
+        v = self.ev(e.args[0], st)
+        if v.kind != "reflist":
+            raise Unsupported("iter() of %s" % v.kind)
+        el, n, _, _ = self._rl(st, v)
+        return SV("listiter", z3.IntVal(0), cls=v.cls, x=(el, n, self._owner_of(v)))
+
+    def bi_next(self, e, st):
+        if len(e.args) != 1 or not isinstance(e.args[0], ast.Name):
+            raise Unsupported("next() of anything but a local name")
+        nm = e.args[0].id
+        it = st.env.get(nm)
+        if it is None or it.kind != "listiter":
+            raise Unsupported("next() of %s" % (it.kind if it is not None else "an unbound name"))
+        el, n, ow = it.x
+        ln = getattr(e, "lineno", None)
+        more = it.t < n
+        x = st.copy()
+        x.assume(z3.And(*self.guard, z3.Not(more)) if self.guard else z3.Not(more))
+        self.pending_raises.append(Exit("raise", x, exc="StopIteration", lineno=ln))
+        st.assume(z3.Implies(z3.And(*self.guard), more) if self.guard else more)
+        st.env[nm] = SV("listiter", it.t + 1, cls=it.cls, x=it.x)
+        return SV("ref", z3.Select(el, it.t), cls=it.cls)
+
+    def sp_iter_list(self, e, st):
+        it = self.ev(e.args[0], st)
+        if it.kind != "listiter":
+            raise Unsupported("iter_list() of %s" % it.kind)
+        return SV("reflist", None, cls=it.cls, x=("value", it.x[0], it.x[1], it.x[2]))
+
+    def sp_iter_pos(self, e, st):
+        it = self.ev(e.args[0], st)
+        if it.kind != "listiter":
+            raise Unsupported("iter_pos() of %s" % it.kind)
+        return SV("int", it.t)
+
+    def fresh_listiter(self, st, nm, old):
+        k = self._nf()
+        el = z3.Const("it_el_%s!%d" % (nm, k), IA)
+        n = z3.Int("it_n_%s!%d" % (nm, k))
+        pos = z3.Int("it_pos_%s!%d" % (nm, k))
+        st.assume(z3.And(n >= 0, pos >= 0, pos <= n))
+        return SV("listiter", pos, cls=old.cls, x=(el, n, None))
 
     def bi_len(self, e, st):
         v = self.ev(e.args[0], st)
@@ -306,6 +360,17 @@ class Executor3(Executor2):
         return Executor2.assign_subscript(self, st, target, v, ln)
 
     def assign(self, st, target, v, ln):
+        if isinstance(target, (ast.Tuple, ast.List)) and v.kind == "reflist" and not self.spec:
+            # a, b = L: ValueError unless len(L) is exactly the number of targets
+            el, n, _, _ = self._rl(st, v)
+            k = len(target.elts)
+            x = st.copy()
+            x.assume(n != k)
+            self.pending_raises.append(Exit("raise", x, exc="ValueError", lineno=ln))
+            st.assume(n == k)
+            for i, t in enumerate(target.elts):
+                self.assign(st, t, SV("ref", z3.Select(el, i), cls=v.cls), ln)
+            return
         if isinstance(target, ast.Subscript):
             base = self.ev(target.value, st)
             if base.kind == "reflist":
